@@ -4,7 +4,7 @@
 (* values that TLC enumerates for the generated-code properties            *)
 (* (C01-C09, C12).  DESIGN.md section 7, "common vocabulary".              *)
 (***************************************************************************)
-EXTENDS BebopWire
+EXTENDS BebopWire, Json
 
 CONSTANTS Tier,      \* "quick" | "thorough"
           Seed       \* natural; selects the sampled part of the quick tier
@@ -201,12 +201,20 @@ NShapes == Len(Shapes)
 NCtx == Len(Ctxs)
 NBase == NShapes * NCtx
 NPairEnd == NBase + NPairSchemas
+\* "random" schemas: drawn by the harness (seeded; several definitions referring to each other, nesting
+\* depth 3) and read from extra.ndjson; the specification supplies their values, bytes and judgements
+Extra == ndJsonDeserialize("extra.ndjson")
+NExtra == Len(Extra)
 NMixEnd == NPairEnd + NMix
-NSchemas == NMixEnd + NWide
-IsWide(sid) == sid > NMixEnd
+NWideEnd == NMixEnd + NWide
+NSchemas == NWideEnd + NExtra
+IsExtra(sid) == sid > NWideEnd
+IsWide(sid) == sid > NMixEnd /\ sid <= NWideEnd
 IsMix(sid) == sid > NPairEnd /\ sid <= NMixEnd
 IsPair(sid) == sid > NBase /\ sid <= NPairEnd
-ShapeOf(sid) == IF IsWide(sid)
+ShapeOf(sid) == IF IsExtra(sid)
+                THEN [t |-> P("bool"), sup |-> <<>>, tag |-> "random" \o ToString(sid - NWideEnd)]
+                ELSE IF IsWide(sid)
                 THEN [t |-> P(WideSpecs[sid - NMixEnd].p), sup |-> <<>>,
                       tag |-> "wide<" \o ToString(WideSpecs[sid - NMixEnd].n) \o "x" \o WideSpecs[sid - NMixEnd].p \o ">"]
                 ELSE IF IsMix(sid)
@@ -216,11 +224,13 @@ ShapeOf(sid) == IF IsWide(sid)
                 THEN [t |-> PairA(sid - NBase - 1).t, sup |-> PairSup(sid - NBase - 1),
                       tag |-> "pair<" \o PairA(sid - NBase - 1).tag \o "," \o PairB(sid - NBase - 1).tag \o ">"]
                 ELSE Shapes[((sid - 1) \div NCtx) + 1]
-CtxOf(sid) == IF IsWide(sid) THEN "wide" \o WideSpecs[sid - NMixEnd].kind
+CtxOf(sid) == IF IsExtra(sid) THEN "random"
+              ELSE IF IsWide(sid) THEN "wide" \o WideSpecs[sid - NMixEnd].kind
               ELSE IF IsMix(sid) THEN (IF (sid - NPairEnd) % 2 = 0 THEN "mixstruct" ELSE "mixmsg")
               ELSE IF IsPair(sid) THEN (IF (sid - NBase - 1) % 2 = 0 THEN "pairstruct" ELSE "pairmsg")
               ELSE Ctxs[((sid - 1) % NCtx) + 1]
-SchemaOf(sid) == IF IsWide(sid) THEN WideDefs(sid - NMixEnd)
+SchemaOf(sid) == IF IsExtra(sid) THEN Extra[sid - NWideEnd].defs
+                 ELSE IF IsWide(sid) THEN WideDefs(sid - NMixEnd)
                  ELSE IF IsMix(sid) THEN MixSup(sid - NPairEnd) \o MixDefs(sid - NPairEnd)
                  ELSE IF IsPair(sid) THEN PairSup(sid - NBase - 1) \o PairDefs(sid - NBase - 1)
                  ELSE ShapeOf(sid).sup \o RootDefs(ShapeOf(sid).t, CtxOf(sid))
